@@ -672,7 +672,12 @@ Inductive event :=
 
 Definition step (e : event) : M unit :=
   match e with
-  | EFault c n => modify (fun s => with_out s (out s) (fset c n (faults s)))
+  | EFault c n =>
+    (* a connection that has started failing keeps failing: a new plan does not revive it *)
+    modify (fun s => match flookup c (faults s) with
+                     | Some k => if k <=? 0 then s else with_out s (out s) (fset c n (faults s))
+                     | None => with_out s (out s) (fset c n (faults s))
+                     end)
   | ERound accept ready0 writable now =>
     s0 <- get ;;
     (* select() only polls sockets that are keys of self.modules *)
